@@ -71,6 +71,9 @@ def parseThrowable (line : Bytes) : Option Throwable :=
 def printFrame (f : Frame) : Bytes :=
   litAt ++ f.cls ++ [46] ++ f.method ++ [40] ++ f.file.getD litUnknown ++ [58] ++ natToDec f.line ++ [41]
 
+/-- `StackFrame::full_method` -/
+def fullMethod (cls method : Bytes) : Bytes := cls ++ [46] ++ method
+
 def printThrowable (t : Throwable) : Bytes :=
   match t.message with
   | some m => t.cls ++ litColonSpace ++ m
